@@ -453,7 +453,7 @@ func (w *world) checkPoller(timeout time.Duration) {
 	// the peer: valid certificates have..have+v-1, then possibly an invalid one, then more
 	avail := len(h.Certs) - have
 	v := c.Intn(avail + 1)
-	kind := c.Intn(7)
+	kind := c.Intn(8)
 	var buf bytes.Buffer
 	hdr := certexchange.ResponseHeader{PendingInstance: h.First + uint64(have+v)}
 	consumedInvalid := false
@@ -508,24 +508,34 @@ func (w *world) checkPoller(timeout time.Duration) {
 			}
 		}
 	}
-	if kind == 6 {
+	if kind == 6 || kind == 7 {
 		hdr.PendingInstance = h.First + uint64(have+v) + uint64(1+c.Intn(5)) // advertises more than it sends
 		what = "a peer that advertises more certificates than it sends"
+		if kind == 7 {
+			what = "a peer that keeps advertising more certificates than it ever sends"
+		}
 	}
 	var full bytes.Buffer
 	_ = hdr.MarshalCBOR(&full)
 	full.Write(buf.Bytes())
 	evil := peer.ID("poll-peer")
 	served := 0
+	runaway := false
 	w.net.SetScripted(evil, func(req []byte) ([]byte, error) {
 		served++
-		if served > 1000 {
-			kernel.Infra("Poll keeps requesting: have=%d v=%d kind=%d pending=%d first=%d next=%d", have, v, kind, hdr.PendingInstance, h.First, poller.NextInstance)
+		if served > 64 {
+			// the peer would go on like this for ever; break the loop with a stream error so
+			// that the check below can report it
+			runaway = true
+			return nil, ErrReset
 		}
 		if served > 1 {
-			// subsequent requests of the same Poll: nothing more
 			var b bytes.Buffer
-			h2 := certexchange.ResponseHeader{PendingInstance: hdr.PendingInstance}
+			h2 := certexchange.ResponseHeader{PendingInstance: h.First + uint64(have+v)}
+			if kind == 7 {
+				// keeps advertising one more certificate than it will ever send
+				h2.PendingInstance = poller.NextInstance + 1
+			}
 			_ = h2.MarshalCBOR(&b)
 			return b.Bytes(), nil
 		}
@@ -540,6 +550,10 @@ func (w *world) checkPoller(timeout time.Duration) {
 	ctx := fmt.Sprintf("poller holding %d certificates polls %s sending %d valid certificates first", have, what, v)
 	if perr != nil {
 		w.fail("poll_internal_error", "poller", "%s: Poll returned an internal error: %v", ctx, perr)
+		return
+	}
+	if runaway {
+		w.fail("poller_unbounded_requests", "poller", "%s: Poll issued more than 64 requests to the same peer without receiving anything new and without returning", ctx)
 		return
 	}
 	latest := cs.Latest()
